@@ -58,6 +58,29 @@ for t in texts:
     r2 = d.rebuild(); r3 = d.rebuild()
     if not (r1 == r2 == r3): viol.append({'what': 'repeated rebuilds of the same document return different text', 'input': t, 'first': r1, 'second': r2}); continue
     if safe(t) != r1: viol.append({'what': 'a fresh parse of the same text rebuilds differently from the first document', 'input': t})
+# ---- purity on documents that hold CONSTRUCTED nodes (eighth round): a node built through the construction API and inserted by an edit has
+# layout fields still undecided (multiline=None …); rebuilding must not decide them on the node
+def constructed():
+    from nix_manipulator.expressions.list import NixList
+    from nix_manipulator.expressions.set import AttributeSet
+    from nix_manipulator.expressions.identifier import Identifier
+    from nix_manipulator.expressions.with_statement import WithStatement
+    from nix_manipulator.expressions.binding import Binding
+    ident = lambda n: Identifier(name=n)
+    makers = [lambda: NixList(value=['a', 'b']), lambda: NixList(value=[1]), lambda: NixList(value=[]), lambda: NixList(value=[ident('a'), ident('b'), ident('c')]),
+              lambda: WithStatement(environment=ident('pkgs'), body=NixList(value=[ident('a'), ident('b')])), lambda: AttributeSet.from_dict({'x': 1, 'y': [1, 2]}), lambda: AttributeSet.from_dict({}),
+              lambda: AttributeSet(values=[Binding(name='k', value=NixList(value=['u', 'v']))]), lambda: {'n': {'m': [1, 2, 3]}}, lambda: [[1, 2], [3]], lambda: 'text', lambda: 1.5]
+    for base in ['{\n  name = "x";\n}\n', '{ name = "x"; }\n', 'let\n  v = 1;\nin\n{\n  a = v;\n}\n']:
+        for mk in makers:
+            d = parse(base); d['deps'] = mk(); yield base, d
+for base, d in constructed():
+    dist['constructed'] = dist.get('constructed', 0) + 1
+    try:
+        before = snapshot(d); r1 = d.rebuild(); after = snapshot(d)
+        if after != before: viol.append({'what': 'rebuild() modified a document that holds a constructed node (object-graph snapshot differs)', 'input': base, 'text': r1}); continue
+        r2 = d.rebuild(); r3 = d.rebuild()
+        if not (r1 == r2 == r3): viol.append({'what': 'repeated rebuilds of a document that holds a constructed node return different text', 'input': base, 'first': r1, 'second': r2})
+    except Exception as e: viol.append({'what': 'constructed document: %s' % type(e).__name__, 'input': base})
 def norm(q): return q.replace('.<locals>', '')
 ran_n = {(f, norm(q)) for f, q in ran if '<genexpr>' not in q and '<lambda>' not in q and '<listcomp>' not in q}
 missing = sorted(ran_n - static_set)
